@@ -149,8 +149,10 @@ func netAccepts(n netID, a wdAddr) bool {
 
 var c17ScriptMutations atomic.Int64
 
+var c17Pads = []string{" ", "\t", "\n", "\r", "\x00"}
+
 func runC17(r *mc.Run) {
-	r.Rule = "deposit side: 11 relayer keys (6 ECDSA of both parities, 5 x-only) x 6 EVM addresses x 4 networks x versions 0/1 x 3 magic prefixes: address and data script from the real Query/DepositAddress handler and from the builders -> script via btcd -> the real verifier must accept for the generating (key, address) and reject for every other pair of the alphabet (full cross product), and must reject every single-byte substitution (255 values x every position), truncation and extension of the handed-out scripts for the generating pair; withdrawal side: hand-encoded p2pkh/p2sh/p2wpkh/p2wsh/p2tr addresses of 4 networks, pay-to-pubkey strings, every single-character substitution from a 4-symbol menu, decoded for every network by the real DecodeBtcAddress and end-to-end through ProcessBridgeRequest"
+	r.Rule = "deposit side: 11 relayer keys (6 ECDSA of both parities, 5 x-only) x 6 EVM addresses x 4 networks x versions 0/1 x 3 magic prefixes: address and data script from the real Query/DepositAddress handler and from the builders -> script via btcd -> the real verifier must accept for the generating (key, address) and reject for every other pair of the alphabet (full cross product), and must reject every single-byte substitution (255 values x every position), truncation and extension of the handed-out scripts for the generating pair; withdrawal side: hand-encoded p2pkh/p2sh/p2wpkh/p2wsh/p2tr addresses of 4 networks, pay-to-pubkey strings, every single-character substitution from a 4-symbol menu, blank / tab / newline / CR / NUL padding at either end, case change, extension, truncation, decoded for every network by the real DecodeBtcAddress and end-to-end through ProcessBridgeRequest"
 	r.Assumptions = []string{"btcd address/script encoding trusted as reference decoder for mutated strings", "hash functions trusted"}
 	keys, evms := c17Keys(6, 5), c17Evms(6)
 	if r.Thorough() {
@@ -404,6 +406,10 @@ func runC17(r *mc.Run) {
 		check(a, strings.ToUpper(a.addr), true)
 		check(a, a.addr+"q", true)
 		check(a, a.addr[:len(a.addr)-1], true)
+		for _, pad := range c17Pads {
+			check(a, pad+a.addr, true)
+			check(a, a.addr+pad, true)
+		}
 	}
 	check(wdAddr{kind: "empty"}, "", true)
 
@@ -416,7 +422,25 @@ func runC17(r *mc.Run) {
 			reg = n
 		}
 	}
-	for i, a := range addrs {
+	// the genuine strings, and for every one of them the same string padded with a blank, tab,
+	// newline, carriage return or NUL at either end, upper-cased, extended and truncated: whatever
+	// the handler does to the string before deciding, the decision must be the reference decoder's
+	// on the string as requested, and a pending withdrawal must carry an address that decodes
+	e2e := append([]wdAddr{}, addrs...)
+	for _, a := range addrs {
+		if a.script == nil {
+			continue
+		}
+		var edits []string
+		for _, pad := range c17Pads {
+			edits = append(edits, pad+a.addr, a.addr+pad)
+		}
+		edits = append(edits, strings.ToUpper(a.addr), a.addr+"q", a.addr[:len(a.addr)-1])
+		for _, e := range edits {
+			e2e = append(e2e, wdAddr{kind: a.kind + "-edited", net: a.net, addr: e, id: "edited"})
+		}
+	}
+	for i, a := range e2e {
 		id := uint64(1000 + i)
 		err := kp.ProcessBridgeRequest(ctx, goattypes.BridgeRequests{Withdraws: []*goattypes.WithdrawalRequest{{Id: id, Amount: 100000, TxPrice: 10, Address: a.addr}}})
 		r.Transitions.Add(1)
@@ -435,7 +459,19 @@ func runC17(r *mc.Run) {
 			}
 		}
 		want := netAccepts(reg, a)
+		if a.id == "edited" {
+			ref, rerr := btcutil.DecodeAddress(a.addr, reg.params)
+			want = rerr == nil && ref.IsForNet(reg.params)
+			if _, isPK := ref.(*btcutil.AddressPubKey); isPK {
+				want = false
+			}
+		}
 		pending := wd.Status == bitcointypes.WITHDRAWAL_STATUS_PENDING
+		if pending {
+			if _, derr := bitcointypes.DecodeBtcAddress(wd.Address, reg.params); derr != nil {
+				r.Violate(mc.Violation{Class: "pending-withdrawal-with-undecodable-address:" + a.kind, Msg: fmt.Sprintf("%q is pending but its stored address does not decode: %v", wd.Address, derr), Detail: c17Case{Part: "withdrawal", Address: a.addr}}, nil)
+			}
+		}
 		if pending != want || refunded == want {
 			r.Violate(mc.Violation{Class: "withdrawal-admission-differs-from-address-validity:" + a.kind, Msg: fmt.Sprintf("%s (%s@%s): status %s refunded=%v, decodable for regtest=%v", a.addr, a.kind, a.net, wd.Status, refunded, want), Detail: c17Case{Part: "withdrawal", Address: a.addr}}, nil)
 		}
